@@ -17,7 +17,7 @@ const (
 type storedMessages struct {
 	logger                Logger
 	lock                  sync.RWMutex
-	lastUsed              time.Time
+	lastUsed              uint64 // GC epoch in which the last message was stored
 	messages              []*IncMessage
 	messageCountPerSender map[uint16]int
 }
@@ -26,7 +26,7 @@ type MessageHandler interface {
 	HandleMessage(msg *IncMessage)
 }
 
-func (sm *storedMessages) add(msg *IncMessage) {
+func (sm *storedMessages) add(msg *IncMessage, epoch uint64) {
 	sm.lock.Lock()
 	defer sm.lock.Unlock()
 
@@ -39,11 +39,17 @@ func (sm *storedMessages) add(msg *IncMessage) {
 	sm.messageCountPerSender[msg.Source]++
 
 	sm.messages = append(sm.messages, msg)
-	now := time.Now()
 
-	if now.After(sm.lastUsed) {
-		sm.lastUsed = now
+	if epoch > sm.lastUsed {
+		sm.lastUsed = epoch
 	}
+}
+
+func (sm *storedMessages) lastUsedEpoch() uint64 {
+	sm.lock.RLock()
+	defer sm.lock.RUnlock()
+
+	return sm.lastUsed
 }
 
 func (sm *storedMessages) senders() []uint16 {
@@ -135,7 +141,7 @@ func (b *Box) getOrCreateMessagesByTopic(topic []byte) *storedMessages {
 
 	messages, exists = b.pendingMessages[string(topic)]
 	if !exists {
-		messages = &storedMessages{logger: b.Logger, messageCountPerSender: make(map[uint16]int), lastUsed: time.Now()}
+		messages = &storedMessages{logger: b.Logger, messageCountPerSender: make(map[uint16]int), lastUsed: atomic.LoadUint64(&b.currentGCEpochNum)}
 	}
 
 	b.pendingMessages[string(topic)] = messages
@@ -176,7 +182,7 @@ func (b *Box) storeOrForward(msg *IncMessage) {
 
 	verifYield("storeOrForward:before-add")
 
-	messages.add(msg)
+	messages.add(msg, atomic.LoadUint64(&b.currentGCEpochNum))
 
 	verifYield("storeOrForward:after-add")
 }
@@ -257,7 +263,7 @@ func (b *Box) mark(now uint64, epochsAfterWhichWeGC time.Duration) []string {
 	defer b.lock.RUnlock()
 
 	for topic, messages := range b.pendingMessages {
-		if float64(messages.lastUsed.Unix())+b.GCExpire.Seconds() < float64(now) {
+		if lastUsed := messages.lastUsedEpoch(); now > lastUsed && time.Duration(now-lastUsed) > epochsAfterWhichWeGC {
 			topics2Delete = append(topics2Delete, topic)
 		}
 	}
